@@ -8,6 +8,14 @@ Open Scope Z_scope.
 
 Record qspec := mkQ { q_a : list Z; q_n : list Z; q_d : list Z; q_t : list Z }.
 
+(* operations of a case: the property's operations, plus the maintenance entry point RebuildAccumulationStoreForDenom *)
+Inductive xop := XOp (o : op) | XRebuild (dn : Z).
+Definition xstep (s : state) (x : xop) : state * Z :=
+  match x with
+  | XOp o => step s o
+  | XRebuild dn => match rebuild_accumulation_store_for_denom s dn with Ok s' => (s', 0) | Err e => (s, err_code e) end
+  end.
+
 Record case := mkCase {
   c_t0 : Z;                          (* first block time *)
   c_nd : Z;                          (* denominations 1..c_nd *)
@@ -15,7 +23,9 @@ Record case := mkCase {
   c_fund : list (list Z);            (* initial balances: account-major *)
   c_force : list Z;                  (* ForceUnlockAllowedAddresses *)
   c_adurs : list Z;                  (* durations of the accumulation observations *)
-  c_ops : list (op * option qspec);
+  c_glast : Z;                       (* genesis: last lock id *)
+  c_gen : list lock;                 (* genesis: locks *)
+  c_ops : list (xop * option qspec);
   c_expect : list Z }.               (* per op: result code, digest *)
 
 Definition mask50 : Z := 2 ^ 50 - 1.
@@ -117,21 +127,25 @@ Definition sweep (c : case) (s : state) (q : option qspec) : list Z :=
 Definition flat_obs (c : case) (s : state) (q : option qspec) : list Z :=
   [s_now s] ++ flat_state c s ++ sweep c s q.
 
-Definition init_of (c : case) : state := init_state (c_t0 c) (fund_of (c_fund c)) (c_force c).
+Definition init_of (c : case) : state :=
+  match genesis_state (c_t0 c) (fund_of (c_fund c)) (c_force c) (c_glast c) (c_gen c) with
+  | Ok s => s
+  | Err _ => init_state (c_t0 c) (fund_of (c_fund c)) (c_force c)    (* malformed genesis: never generated *)
+  end.
 
 (* per operation: result code, digest of the observation vector *)
-Fixpoint scan (c : case) (s : state) (ops : list (op * option qspec)) : list Z :=
+Fixpoint scan (c : case) (s : state) (ops : list (xop * option qspec)) : list Z :=
   match ops with
   | [] => []
-  | (o, q) :: r => let '(s1, code) := step s o in code :: digest (flat_obs c s1 q) :: scan c s1 r
+  | (o, q) :: r => let '(s1, code) := xstep s o in code :: digest (flat_obs c s1 q) :: scan c s1 r
   end.
 Definition model_obs (c : case) : list Z := scan c (init_of c) (c_ops c).
 
 (* full vectors, for debugging a disagreement *)
-Fixpoint scan_full (c : case) (s : state) (ops : list (op * option qspec)) : list (list Z) :=
+Fixpoint scan_full (c : case) (s : state) (ops : list (xop * option qspec)) : list (list Z) :=
   match ops with
   | [] => []
-  | (o, q) :: r => let '(s1, code) := step s o in (code :: flat_obs c s1 q) :: scan_full c s1 r
+  | (o, q) :: r => let '(s1, code) := xstep s o in (code :: flat_obs c s1 q) :: scan_full c s1 r
   end.
 Definition model_full (c : case) : list (list Z) := scan_full c (init_of c) (c_ops c).
 
